@@ -101,7 +101,7 @@ theorem approved (w : Bool) (v : Verdict) (path P : CStr) (h : checkValidPath tr
     · simp [hl] at h
 
 theorem any_okBy (apps : List Approval) (fn : String) (w : Bool) (p : CStr) (a : Approval)
-    (hm : a ∈ apps) (hl : specLegal a.path = true) (hc : covers a.path p = true)
+    (hm : a ∈ apps) (hl : specLegal a.path = true) (hc : covers fn a.path p = true)
     (hk : (if w then a.w else (!a.w || fn == "stat")) = true) : apps.any (okBy fn w p) = true := by
   rw [List.any_eq_true]
   exact ⟨a, hm, by simp [okBy, hl, hc, hk]⟩
@@ -163,7 +163,7 @@ theorem segOk_append (f : String) : ∀ (e1 e2 : List Ev) (apps : List Approval)
     | call _ _ _ => exact absurd h1 (by simp [segOk])
     | mode _ => exact absurd h1 (by simp [segOk])
 
-theorem covers_self (a : CStr) : covers a a = true := by simp [covers]
+theorem covers_self (fn : String) (a : CStr) : covers fn a a = true := by simp [covers]
 
 /-! ### the efuns -/
 
@@ -178,28 +178,32 @@ theorem segOk_single (f : String) (pol : Policy) (w : Bool) (op fn : String) (fw
   | some P =>
     obtain ⟨h1, h2, h3, _⟩ := approved w _ _ _ h
     simp only [List.singleton_append, segOk, h1, Option.toList_some, hop, h3, true_and, and_true]
-    exact any_okBy _ fn fw P ⟨w, P⟩ (by simp) h2 (covers_self P) hk
+    exact any_okBy _ fn fw P ⟨w, P⟩ (by simp) h2 (covers_self _ P) hk
 
-theorem covers_listDir (a : CStr) : covers a (listDir a) = true := by simp [covers]
-theorem covers_parent (a : CStr) : covers a (parentDir (listDir a)) = true := by simp [covers]
-theorem covers_strip (a : CStr) : covers a (stripTrailSlash a) = true := by simp [covers]
-theorem covers_tmp (a : CStr) : covers a (a.take 250 ++ str ".tmp") = true := by simp [covers]
+theorem covers_listDir (fn : String) (a : CStr) (h : fn = "stat" ∨ fn = "opendir") :
+    covers fn a (listDir a) = true := by rcases h with rfl | rfl <;> simp [covers]
+theorem covers_parent (a : CStr) : covers "opendir" a (parentDir (listDir a)) = true := by simp [covers]
+theorem covers_strip (fn : String) (a : CStr) (h : fn = "rename" ∨ fn = "symlink") :
+    covers fn a (stripTrailSlash a) = true := by rcases h with rfl | rfl <;> simp [covers]
+theorem covers_tmp (fn : String) (a : CStr) (h : fn = "fopen" ∨ fn = "rename" ∨ fn = "unlink") :
+    covers fn a (a.take 250 ++ str ".tmp") = true := by rcases h with rfl | rfl | rfl <;> simp [covers]
 
-theorem covers_child (a b : CStr) (hb : '/' ∉ b) (hd : b ≠ dotdot) : covers a (a ++ ['/'] ++ b) = true := by
+theorem covers_child (fn : String) (a b : CStr) (hf : fn = "open" ∨ fn = "rename-to" ∨ fn = "symlink-to")
+    (hb : '/' ∉ b) (hd : b ≠ dotdot) : covers fn a (a ++ ['/'] ++ b) = true := by
   have : childOf a (a ++ ['/'] ++ b) = true := by
     unfold childOf
     simp only [List.take_left', List.drop_left', List.length_append, List.length_cons, List.length_nil]
     simp [hb, hd]
   have this' : childOf a (a ++ '/' :: b) = true := by simpa using this
-  simp [covers, this']
+  rcases hf with rfl | rfl | rfl <;> simp [covers, this']
 
 theorem segOk_getDirFs (f : String) (ex : List CStr) (P : CStr) (apps : List Approval)
     (hm : (⟨false, P⟩ : Approval) ∈ apps) (hl : specLegal P = true) (hs : safe P = true) :
     segOk f apps (getDirFs ex P) := by
   have k1 : apps.any (okBy "stat" false (listDir P)) = true :=
-    any_okBy _ _ _ _ ⟨false, P⟩ hm hl (covers_listDir P) (by simp)
+    any_okBy _ _ _ _ ⟨false, P⟩ hm hl (covers_listDir _ P (Or.inl rfl)) (by simp)
   have k2 : apps.any (okBy "opendir" false (listDir P)) = true :=
-    any_okBy _ _ _ _ ⟨false, P⟩ hm hl (covers_listDir P) (by simp)
+    any_okBy _ _ _ _ ⟨false, P⟩ hm hl (covers_listDir _ P (Or.inr rfl)) (by simp)
   have k3 : apps.any (okBy "opendir" false (parentDir (listDir P))) = true :=
     any_okBy _ _ _ _ ⟨false, P⟩ hm hl (covers_parent P) (by simp)
   have s1 := safe_listDir P hs
@@ -228,7 +232,7 @@ theorem segOk_stat (f : String) (pol : Policy) (ex : List CStr) (a : CStr) (apps
   | some P =>
     obtain ⟨h1, h2, h3, _⟩ := approved false _ _ _ h
     simp only [List.singleton_append, segOk, h1, Option.toList_some, hop, true_and, h3]
-    refine ⟨any_okBy _ _ _ _ ⟨false, P⟩ (by simp) h2 (covers_self P) (by simp), ?_⟩
+    refine ⟨any_okBy _ _ _ _ ⟨false, P⟩ (by simp) h2 (covers_self _ P) (by simp), ?_⟩
     split
     · trivial
     · exact segOk_getDir f pol ex a _ hop
@@ -238,13 +242,14 @@ theorem baseName_ne_dotdot (p : CStr) (h : safe p = true) : baseName p ≠ dotdo
 
 /-- target of `rename` / `link` / `cp`: the approved path, or (it is a directory) that path + "/" + last
     component of the source -/
-theorem target_ok (to src : CStr) (c : Bool) (h0 : to ≠ []) (hs : safe to = true) (hsrc : safe src = true) :
-    covers to (if c then to ++ ['/'] ++ baseName src else to) = true ∧
+theorem target_ok (fn : String) (to src : CStr) (c : Bool) (hf : fn = "open" ∨ fn = "rename-to" ∨ fn = "symlink-to")
+    (h0 : to ≠ []) (hs : safe to = true) (hsrc : safe src = true) :
+    covers fn to (if c then to ++ ['/'] ++ baseName src else to) = true ∧
     safe (if c then to ++ ['/'] ++ baseName src else to) = true := by
   cases c with
-  | false => exact ⟨covers_self to, hs⟩
+  | false => exact ⟨covers_self _ to, hs⟩
   | true =>
-    exact ⟨covers_child to _ (baseName_noslash src) (baseName_ne_dotdot src hsrc),
+    exact ⟨covers_child fn to _ hf (baseName_noslash src) (baseName_ne_dotdot src hsrc),
            safe_child to _ h0 hs (baseName_noslash src) (baseName_ne_dotdot src hsrc)⟩
 
 theorem segOk_rename (f : String) (pol : Policy) (ex : List CStr) (sym : Bool) (a b : CStr)
@@ -262,10 +267,11 @@ theorem segOk_rename (f : String) (pol : Policy) (ex : List CStr) (sym : Bool) (
       obtain ⟨a2, l2, s2, n2⟩ := approved true _ _ _ h2
       simp only
       generalize hfrom' : (if from_.length > 1 ∧ from_.getLast? = some '/' then stripTrailSlash from_ else from_) = from'
-      have hc' : covers from_ from' = true := by
+      have hc' : ∀ fn, fn = "rename" ∨ fn = "symlink" → covers fn from_ from' = true := by
+        intro fn hfn
         rw [← hfrom']; split
-        · exact covers_strip from_
-        · exact covers_self from_
+        · exact covers_strip fn from_ hfn
+        · exact covers_self fn from_
       have hs' : safe from' = true := by
         rw [← hfrom']; split
         · exact safe_stripTrail from_ s1
@@ -276,13 +282,18 @@ theorem segOk_rename (f : String) (pol : Policy) (ex : List CStr) (sym : Bool) (
               [Ev.fs "symlink" true from', Ev.fs "symlink-to" true (if c = true then to ++ '/' :: baseName from' else to)]
             else [Ev.fs "rename" true from', Ev.fs "rename-to" true (if c = true then to ++ '/' :: baseName from' else to)]) := by
         intro apps' c m1 m2
-        obtain ⟨tc, ts⟩ := target_ok to from' c n2 s2 hs'
-        simp only [List.append_assoc, List.singleton_append] at tc ts
-        have k1 : ∀ fn, apps'.any (okBy fn true from') = true :=
-          fun fn => any_okBy _ _ _ _ ⟨true, from_⟩ m1 l1 hc' (by simp)
-        have k2 : ∀ fn, apps'.any (okBy fn true (if c = true then to ++ '/' :: baseName from' else to)) = true :=
-          fun fn => any_okBy _ _ _ _ ⟨true, to⟩ m2 l2 tc (by simp)
-        cases sym <;> simp [segOk, k1, k2, hs', ts]
+        obtain ⟨tc1, ts⟩ := target_ok "rename-to" to from' c (Or.inr (Or.inl rfl)) n2 s2 hs'
+        obtain ⟨tc2, _⟩ := target_ok "symlink-to" to from' c (Or.inr (Or.inr rfl)) n2 s2 hs'
+        simp only [List.append_assoc, List.singleton_append] at tc1 tc2 ts
+        have k1 : apps'.any (okBy "rename" true from') = true :=
+          any_okBy _ _ _ _ ⟨true, from_⟩ m1 l1 (hc' _ (Or.inl rfl)) (by simp)
+        have k1' : apps'.any (okBy "symlink" true from') = true :=
+          any_okBy _ _ _ _ ⟨true, from_⟩ m1 l1 (hc' _ (Or.inr rfl)) (by simp)
+        have k2 : apps'.any (okBy "rename-to" true (if c = true then to ++ '/' :: baseName from' else to)) = true :=
+          any_okBy _ _ _ _ ⟨true, to⟩ m2 l2 tc1 (by simp)
+        have k2' : apps'.any (okBy "symlink-to" true (if c = true then to ++ '/' :: baseName from' else to)) = true :=
+          any_okBy _ _ _ _ ⟨true, to⟩ m2 l2 tc2 (by simp)
+        cases sym <;> simp [segOk, k1, k1', k2, k2', hs', ts]
       by_cases hr : (pol.verdict false to).raises = true
       · simp [hr, segOk, a1, a2, hop1, hop2]
       simp only [hr, Bool.false_eq_true, ↓reduceIte]
@@ -295,7 +306,7 @@ theorem segOk_rename (f : String) (pol : Policy) (ex : List CStr) (sym : Bool) (
         obtain ⟨a3, l3, s3, _⟩ := approved false _ _ _ h3
         simp only [List.append_assoc, List.singleton_append, List.nil_append, segOk, a1, a2, a3, Option.toList_some,
           hop1, hop2, true_and, List.cons_append, s3]
-        refine ⟨any_okBy _ _ _ _ ⟨false, q⟩ (by simp) l3 (covers_self q) (by simp), ?_⟩
+        refine ⟨any_okBy _ _ _ _ ⟨false, q⟩ (by simp) l3 (covers_self _ q) (by simp), ?_⟩
         apply key <;> simp
 
 theorem segOk_cp (f : String) (pol : Policy) (ex : List CStr) (a b : CStr)
@@ -311,15 +322,15 @@ theorem segOk_cp (f : String) (pol : Policy) (ex : List CStr) (a b : CStr)
     | none => simp [segOk, hop]
     | some to =>
       obtain ⟨a2, l2, s2, n2⟩ := approved true _ _ _ h2
-      obtain ⟨tc, ts⟩ := target_ok to from_ (decide (lookup ex to = some Kind.dir)) n2 s2 s1
+      obtain ⟨tc, ts⟩ := target_ok "open" to from_ (decide (lookup ex to = some Kind.dir)) (Or.inl rfl) n2 s2 s1
       simp only [List.append_assoc, List.singleton_append, List.nil_append, segOk, a1, a2, Option.toList_some,
         hop, true_and, List.cons_append, s1]
-      refine ⟨any_okBy _ _ _ _ ⟨false, from_⟩ (by simp) l1 (covers_self _) (by simp), ?_⟩
+      refine ⟨any_okBy _ _ _ _ ⟨false, from_⟩ (by simp) l1 (covers_self _ _) (by simp), ?_⟩
       split
       · trivial
       · simp only [decide_eq_true_eq, List.append_assoc, List.singleton_append] at tc ts
         simp only [segOk, List.append_assoc, List.singleton_append]
-        exact ⟨s2, any_okBy _ _ _ _ ⟨true, to⟩ (by simp) l2 (covers_self _) (by simp), ts,
+        exact ⟨s2, any_okBy _ _ _ _ ⟨true, to⟩ (by simp) l2 (covers_self _ _) (by simp), ts,
                any_okBy _ _ _ _ ⟨true, to⟩ (by simp) l2 tc (by simp), trivial⟩
 
 theorem segOk_save (f : String) (pol : Policy) (ex : List CStr) (a : CStr)
@@ -333,13 +344,17 @@ theorem segOk_save (f : String) (pol : Policy) (ex : List CStr) (a : CStr)
     obtain ⟨a1, l1, s1, _⟩ := approved true _ _ _ h
     have st : safe (P.take 250 ++ str ".tmp") = true :=
       safe_prefix_tmp (P.take 250) (P.drop 250) (by rw [List.take_append_drop]; exact s1)
-    have k1 : ∀ fn, (⟨true, P⟩ :: apps : List Approval).any (okBy fn true (P.take 250 ++ str ".tmp")) = true :=
-      fun fn => any_okBy _ _ _ _ ⟨true, P⟩ (by simp) l1 (covers_tmp P) (by simp)
+    have k1 : ∀ fn, fn = "fopen" ∨ fn = "rename" ∨ fn = "unlink" →
+        (⟨true, P⟩ :: apps : List Approval).any (okBy fn true (P.take 250 ++ str ".tmp")) = true :=
+      fun fn hfn => any_okBy _ _ _ _ ⟨true, P⟩ (by simp) l1 (covers_tmp fn P hfn) (by simp)
+    have k1a := k1 "fopen" (Or.inl rfl)
+    have k1b := k1 "rename" (Or.inr (Or.inl rfl))
+    have k1c := k1 "unlink" (Or.inr (Or.inr rfl))
     have k2 : ∀ fn, (⟨true, P⟩ :: apps : List Approval).any (okBy fn true P) = true :=
-      fun fn => any_okBy _ _ _ _ ⟨true, P⟩ (by simp) l1 (covers_self P) (by simp)
-    simp only [List.singleton_append, segOk, a1, Option.toList_some, hop, true_and, st, k1]
+      fun fn => any_okBy _ _ _ _ ⟨true, P⟩ (by simp) l1 (covers_self _ P) (by simp)
+    simp only [List.singleton_append, segOk, a1, Option.toList_some, hop, true_and, st, k1a]
     split
-    · split <;> simp [segOk, st, s1, k1, k2]
+    · split <;> simp [segOk, st, s1, k1a, k1b, k1c, k2]
     · trivial
 
 theorem edIo_false (r : Option CStr) (w : Bool) : edIo r false w = [] := by
@@ -361,7 +376,7 @@ theorem segOk_askIo (f : String) (pol : Policy) (w io : Bool) (file : CStr) (app
     | false => simp [segOk]
     | true =>
       simp only [↓reduceIte, segOk, s1, true_and, and_true]
-      exact any_okBy _ _ _ _ ⟨w, P⟩ (by simp) l1 (covers_self P) (by cases w <;> simp)
+      exact any_okBy _ _ _ _ ⟨w, P⟩ (by simp) l1 (covers_self _ P) (by cases w <;> simp)
 
 theorem segOk_edStep (f : String) (pol : Policy) (ex : List CStr) (st : EdSt) (c : EdCmd) (apps : List Approval)
     (hop : opOk f "ed_start" = true) : segOk f apps (edStep pol ex st c).1 := by
